@@ -24,6 +24,9 @@ answer).  Nothing is ever delivered from inside a send, so a handler can never r
 pieces of a multi-piece (binary) packet of its own side: that would be a second emitter on the
 same connection, which the library documents as unsupported.  Pumping sends either every queued
 packet on its own or all of them together in one polling payload (`batch`).
+Nested delivery (`deliver_more`): a client-side handler can have the next server->client frame(s)
+handed to the client while it is still running, as happens with the real engine.io client, which
+dispatches every MESSAGE in a task / thread of its own.
 
 Trusted / assumed here (engine.io is a dependency, not under test): the transport is FIFO
 and hands MESSAGE payloads to socketio's handler one at a time in order; exceptions raised by
@@ -40,6 +43,7 @@ What is recorded (per direction 'c2s' / 's2c'):
   escaped   exceptions that left socketio's engine.io handlers
 """
 import asyncio
+import collections
 import inspect
 import logging
 import threading
@@ -185,6 +189,8 @@ class Loopback:
         self.escaped = []
         self.batch = False                          # pump: all queued packets in one polling payload
         self.pumping = False
+        self.inflight = {'c2s': collections.deque(), 's2c': collections.deque()}
+        self.nested_deliveries = 0
         self.first = 'c2s'                          # direction the pump serves first
         self.outq = {'c2s': [], 's2c': []}          # engine.io packets waiting for a flush
         self.cur_id = {'c2s': [], 's2c': []}        # (ack id, dispatch number) of the event being handled (stack)
@@ -399,6 +405,36 @@ class Loopback:
                 self.wire['s2c'].append(p.data)
             self.outq['s2c'].append(p)
 
+    def _refill(self, direction):
+        """Queued packets -> through the real engine.io codec -> in flight (decoded, in order)."""
+        pkts, self.outq[direction] = self.outq[direction], []
+        groups = [pkts] if self.batch else [[p] for p in pkts]
+        for g in groups:
+            tp = self._transport(g)
+            for i, p in enumerate(tp):
+                self.inflight[direction].append((p, i == len(tp) - 1))
+
+    async def _deliver_one(self, direction):
+        p, last = self.inflight[direction].popleft()
+        if direction == 'c2s':
+            await self._to_server(p)
+        else:
+            await self._to_client(p)
+        if last:
+            await self.settle()
+
+    async def deliver_more(self, direction, n):
+        """Nested delivery: hand the next n frames of `direction` to the receiver NOW, from inside a
+        handler that is still running (engine.io dispatches each message in a task / thread of its
+        own, so the next message can reach socketio before the previous handler has returned)."""
+        for _ in range(n):
+            if not self.inflight[direction]:
+                if not self.outq[direction]:
+                    return
+                self._refill(direction)
+            self.nested_deliveries += 1
+            await self._deliver_one(direction)
+
     async def pump(self):
         """Deliver everything that is queued, and everything that is queued in reaction, FIFO per
         direction, until both queues are empty and (asyncio) every task has run."""
@@ -409,18 +445,13 @@ class Loopback:
             for _ in range(10000):
                 busy = False
                 for direction in (self.first, 's2c' if self.first == 'c2s' else 'c2s'):
-                    if not self.outq[direction]:
+                    if not self.outq[direction] and not self.inflight[direction]:
                         continue
                     busy = True
-                    pkts, self.outq[direction] = self.outq[direction], []
-                    groups = [pkts] if self.batch else [[p] for p in pkts]
-                    for g in groups:
-                        for p in self._transport(g):
-                            if direction == 'c2s':
-                                await self._to_server(p)
-                            else:
-                                await self._to_client(p)
-                        await self.settle()
+                    if self.outq[direction]:
+                        self._refill(direction)
+                    while self.inflight[direction]:
+                        await self._deliver_one(direction)
                 await self.settle()
                 if not busy and not self.outq['c2s'] and not self.outq['s2c']:
                     return
@@ -469,7 +500,10 @@ class Loopback:
 
     # ------------------------------------------------------------------ application level
     def on_server(self, event, namespace, fn):
-        """fn(direction, ns, event, args, id) -> return value.  event '*' = catch-all."""
+        """fn(direction, ns, event, args, id) is called when the handler is ENTERED and returns
+        (nest, finish): `finish()` gives the handler's return value when it returns; `nest` (client
+        side only) = number of further server->client frames to deliver while this handler is still
+        running.  event '*' = catch-all."""
         loop = self
 
         def body(args):
@@ -482,7 +516,8 @@ class Loopback:
                 args = ('<wrong sid %r>' % (sid,),) + tuple(args)
             cid, seq = loop.cur_id['c2s'][-1] if loop.cur_id['c2s'] else ('no-dispatch', None)
             loop.rx['c2s'].append(('ev', namespace, ev, list(args), cid, seq))
-            return fn('c2s', namespace, ev, list(args), cid)
+            _, finish = fn('c2s', namespace, ev, list(args), cid)
+            return finish()
         if self.coro_handlers:
             async def h(*args):
                 return body(args)
@@ -494,7 +529,7 @@ class Loopback:
     def on_client(self, event, namespace, fn):
         loop = self
 
-        def body(args):
+        def enter(args):
             if event == '*':
                 ev, args = args[0], args[1:]
             else:
@@ -504,10 +539,16 @@ class Loopback:
             return fn('s2c', namespace, ev, list(args), cid)
         if self.coro_handlers:
             async def h(*args):
-                return body(args)
+                nest, finish = enter(args)
+                if nest:
+                    await loop.deliver_more('s2c', nest)
+                return finish()
         else:
             def h(*args):
-                return body(args)
+                nest, finish = enter(args)
+                if nest:
+                    loop.run_sync(loop.deliver_more('s2c', nest))
+                return finish()
         self.client.on(event, h, namespace=namespace)
 
     async def connect(self, namespaces):
